@@ -69,7 +69,9 @@ theorem getExcerpts_sublist {α : Type} (data : List α) (k size : Nat) (hs : 0 
 /-- Composition with the reader model of C01: reading a recording made of any number of files
 (empty ones included) chunk by chunk through the reader's own iterator (`reader[i0:i1]` for each yielded pair) and
 stacking the chunks gives back exactly the concatenated recording — nothing lost at file or chunk
-boundaries, nothing read twice. -/
+boundaries, nothing read twice.  (For `parts = []` the statement is about the total model only: the real
+`_get_chunk_bounds([])` raises, and `np.memmap` refuses a 0-row file, so empty parts are outside what the
+correspondence run can exercise.) -/
 theorem read_by_chunks_eq_concat {α : Type} (parts : List (List α)) (cs : Nat) (hcs : 0 < cs) :
     readByChunks parts cs = some parts.flatten :=
   Lemmas.read_by_chunks_eq_concat parts cs hcs
